@@ -541,6 +541,19 @@ def run_text(ctx):
     for d in long_digit_docs():
         items.append(('long-digits', d, rng.random() < 0.5))
     check_docs(ctx, items, state)
+    # lines that end inside a quoted token, in every region of a sample line (shared generator, see omgen.quoted_region_lines):
+    # the text parser scans quotes in the name / label block and splits the rest on white space, so every region is a distinct path
+    import omgen
+    items = []
+    for _ in range((1 if quick else 12) * (3 if ctx.broken else 1)):
+        for region, placement, kind, line in omgen.quoted_region_lines(rng):
+            head = rng.choice(['', '', '# TYPE a counter\n', '# HELP a h\n# TYPE a histogram\n'])
+            legacy = rng.random() < 0.3
+            items.append(('quote-cut:' + kind, head + line, legacy))
+            items.append(('quote-cut:' + kind, head + line + '\n', legacy))
+            if rng.random() < 0.15:
+                items.append(('quote-cut:' + kind, head + line.replace(' ', '\t') + '\nb 1\n', legacy))
+    check_docs(ctx, items, state)
     items = []
     bases = [gen_doc(rng, nfam=1 if i % 2 == 0 else None) for i in range(n_base)]
     for b in bases:
@@ -587,7 +600,8 @@ def run_text(ctx):
     if not ctx.rule or 'c14text' not in ctx.rule:
         ctx.rule = (ctx.rule + ' | ' if ctx.rule else '') + (
             'c14text: corpus of known witnesses; grammar documents of every family type; every single line/token mutation '
-            '(insert, delete, duplicate, swap, replace) and every truncation of short documents; double/triple mutations; '
+            '(insert, delete, duplicate, swap, replace) and every truncation of short documents; a quoted token placed in every region of a sample line, the line ending at every '
+            'position inside it followed by 0..3 backslashes; double/triple mutations; '
             'strings over the special characters incl. non-ASCII white space and Unicode digits; 400/4300/4301-digit '
             'numbers in value and timestamp position; each input parsed twice under a 2 s watchdog; non-trivial = has a '
             'metadata or sample line; distinct by document hash and legacy flag')
